@@ -11,6 +11,8 @@
 From Coq Require Import ZArith List Bool Lia Sorting.Sorted.
 From PCB Require Import lib.Result lib.PyInt gen.Gen_program model.Program model.ProgramSpec model.Renum
   model.RenumSpec proofs.Program_proofs proofs.Renum_proofs.
+From PCB Require gen.Gen_flow model.Flow.
+From PCB Require Import model.RenumFlow proofs.RenumFlow_proofs.
 Import ListNotations.
 Open Scope Z_scope.
 
@@ -115,8 +117,48 @@ Theorem C14_reported : forall c s ls tail new start step bef j, abs_ok c s ls ta
 Proof. exact reported_spec. Qed.
 Print Assumptions C14_reported.
 
-(* behaviour preservation is only stated (partial): see RenumSpec.C14_simulation_statement *)
-Definition C14_simulation_partial := C14_simulation_statement.
+(* the line number printed in "Undefined line j in k": every reference found lies inside a line of the program
+   and k = get_line_number with the OLD index = the old number of that line *)
+Theorem C14_report_line : forall c s ls tail new start step p j rep,
+  abs_ok c s ls tail -> In (p, j, rep) (snd (renum_lines c s ls new start step)) ->
+  exists a k b r, ls = a ++ (k, b) :: r /\ size a + 8 <= p <= size a + 5 + zlen b
+                  /\ get_line_number (lines s) (p - 1) = k.
+Proof. exact report_line. Qed.
+Print Assumptions C14_report_line.
+
+(* ---- behaviour preservation: the abstract half, over the control-flow machine of model/Flow.v (C19/C21).
+   Proved: an accepted RENUM is an increasing (hence injective) renaming of the program's lines; on the token
+   level the rewriting IS that renaming of the reference items; under an injective renaming the machine's line
+   lookup finds the renamed target at the same position, the line of a position (ERL, "in line") is the renamed
+   line, and the statement structure is unchanged.  NOT proved: the step-by-step simulation itself
+   (RenumFlow.C14_simulation_flow_statement) - PARTIAL. *)
+Theorem C14_new_number_increasing : forall c s ls tail new start step,
+  cfg_ok c -> abs_ok c s ls tail -> tail_ok tail -> Forall (fun l : line => fst l < 65535) ls ->
+  0 <= new -> 0 <= start <= 65535 -> accepted ls new start step ->
+  forall a b, In a (nums ls) -> In b (nums ls) -> a < b ->
+  new_number (o2n_of (rn_part start ls) new step) a < new_number (o2n_of (rn_part start ls) new step) b.
+Proof. exact new_number_increasing. Qed.
+Print Assumptions C14_new_number_increasing.
+Theorem C14_refs_are_renaming : forall o2n its, refs_nonzero its -> forall bef,
+  rw_items o2n its bef = map (rename_item (new_number o2n)) its.
+Proof. exact rw_items_rename. Qed.
+Print Assumptions C14_refs_are_renaming.
+Theorem C14_flow_jump_commutes : forall f n code,
+  (forall m, In m (flow_lines code) -> f m = f n -> m = n) ->
+  Flow.find_line (rename_lines f code) (f n) = Flow.find_line code n.
+Proof. intros f n code H. exact (find_line_rename f n code 0%nat H). Qed.
+Print Assumptions C14_flow_jump_commutes.
+Theorem C14_flow_erl_renamed : forall f code i, (forall m, In m (flow_lines code) -> m <> 65535) ->
+  Flow.line_of (rename_lines f code) i = g65535 f (Flow.line_of code i).
+Proof. intros f code i H. exact (line_of_rename f code i 65535 H). Qed.
+Print Assumptions C14_flow_erl_renamed.
+Theorem C14_flow_structure : forall f code base,
+  Flow.eol_from (rename_lines f code) base = Flow.eol_from code base /\ length (rename_lines f code) = length code
+  /\ flow_lines (rename_lines f code) = map f (flow_lines code).
+Proof. intros f code base. split; [apply eol_rename|]. split; [apply length_rename | apply flow_lines_rename]. Qed.
+Print Assumptions C14_flow_structure.
+Definition C14_simulation_partial := C14_simulation_flow_statement.
+Definition C14_simulation_generic := C14_simulation_statement.
 
 (* non-vacuity: 10 ON ERROR GOTO 10 / 20 GOTO 20:GOTO 77 / RENUM 100,20 with the error trap on line 10
    (the D4 witness): accepted, line 20 -> 100, the reference follows, 77 is reported, the trap stays on 10 *)
